@@ -23,6 +23,7 @@ META = {
 
 FMT = '%{filename}|%{cmdline}|%{tid}|%{snoopy_threads}|%{login}|%{env:V}|%{username}'
 CFG_LOG = '[snoopy]\nmessage_format = ' + FMT + '\nfilter_chain = only_uid:0;exclude_uid:7,8;noop\noutput = file:@W@/log\n'
+CFG_STDOUT = '[snoopy]\nmessage_format = ' + FMT + '\nfilter_chain = only_uid:0;noop\noutput = stdout\n'
 CFG_DROP = '[snoopy]\nmessage_format = ' + FMT + '\nfilter_chain = only_uid:0;only_root;exclude_uid:0;noop\noutput = file:@W@/log\n'
 
 
@@ -56,11 +57,16 @@ def judge(x, n, k, drop):
         bad.append('mutex_left_locked')
     if r['rec_calls'] != [k] * n or r['lone_rec_calls'] != 1 or r['bad_ret']:
         bad.append('exec_passthrough')
-    lines = (x.log or b'').split(b'\n')
+    if r.get('umask_end', 0o27) != 0o27:
+        bad.append('process_umask_changed_to_%o' % r['umask_end'])
+    text = x.log
+    if text is None and x.stdout:
+        text = x.stdout          # output = stdout campaigns
+    lines = (text or b'').split(b'\n')
     if lines and lines[-1] == b'':
         lines.pop()
     else:
-        if x.log:
+        if text:
             bad.append('partial_last_record')
     exp = {}
     if not drop:
@@ -110,7 +116,7 @@ def campaign(ck, v, name, san, fn, cfg, n, k, bound, drop, stats, max_exec=None)
 
     def check(x):
         bad = judge(x, n, k, drop)
-        order = tuple(l.split(b'|')[0] + b'#' + l.split(b'|')[3] for l in (x.log or b'').split(b'\n') if l.count(b'|') >= 4)
+        order = tuple(l.split(b'|')[0] + b'#' + l.split(b'|')[3] for l in (x.log or x.stdout or b'').split(b'\n') if l.count(b'|') >= 4)
         outcomes.add((name, order))
         if bad:
             if any(b.startswith('HARNESS') for b in bad):
@@ -165,6 +171,7 @@ def run(ck):
         # write/writev/close issued by snoopy are scheduling points too: two threads' file appends interleaved at system-call granularity (C17 for threads)
         ('io-asan-2x1', vio, 'asan', False, CFG_LOG, 2, 1, 2, False),
         ('io-hashed-asan-2x1', vio, 'asan', False, CFG_LOG, 2, 1, 'hashed', False),
+        ('io-stdout-asan-2x1', vio, 'asan', False, CFG_STDOUT, 2, 1, 2, False),
         ('fn-asan-2x1', vf, 'asan', True, CFG_LOG, 2, 1, 1, False),
         ('fn-asan-drop-2x1', vf, 'asan', True, CFG_DROP, 2, 1, 1, True),
     ]
